@@ -9,7 +9,7 @@ import re
 
 from ..boolpaths import states_at
 from ..facts import callee, op_place, strip_generics
-from ..flow import Defs, backward_slice, rv_operands, slice_calls
+from ..flow import Defs, backward_slice, rv_operands, slice_calls, forward_derived
 
 LEVEL = 'other'
 TECHNIQUE = 'static analysis: case evaluation of the session middleware over all valuations of (will_encrypt, will_sign, state-empty) by abstract interpretation (helpers entered); provenance and control-dependence of cookie attributes on the function with helpers inlined; who-may-call by family; Debug-impl closure'
@@ -484,7 +484,52 @@ def r4_debug_closure(ctx):
     ctx.ob('C12.R4', 'anchor|Debug-for-Session', len(sess) == 1, '', 'impl Debug for Session found: %d' % len(sess), nontrivial=False)
 
 
+def r5_headers_are_the_processors_output(ctx):
+    ctx.rule('C12.R5', 'P7/P3 on the emitting side: the `Set-Cookie` values leave through `pavex::cookie::ResponseCookies::header_values`; what it yields is what the '
+             'cookie processor produced. Either the body hands the whole jar to `biscotti::ResponseCookies::header_values(processor)` and returns its result, '
+             'or every cookie goes through `Processor::process_outgoing` and nothing derived from that result is passed to a `set_*` / `make_*` method before it is '
+             'formatted. In pavex and pavex_session no cookie is edited after `process_outgoing`: a value put back after signing / encryption (even an empty '
+             'one) leaves unprotected.')
+    fb = ctx.fb
+    item = 'pavex::cookie::response_cookies::ResponseCookies::header_values'
+    bodies = [b for b in fb.bodies_of_item('pavex', item) if not b.is_promoted]
+    if not ctx.need('C12.R5', 'bodies of ' + item, bodies):
+        return
+    whole = [(b, bb, t) for b in bodies for bb, t in b.calls() if (callee(t) or '').startswith('biscotti::response_cookies::ResponseCookies') and (callee(t) or '').endswith('::header_values')]
+    per = [(b, bb, t) for b in bodies for bb, t in b.calls() if (callee(t) or '').endswith('Processor::process_outgoing')]
+    ok = bool(whole) or bool(per)
+    if whole:
+        b, bb, t = whole[0]
+        ok = t['dest']['l'] == 0 and not t['dest'].get('p')       # returned as it is
+        if not ok:
+            d = forward_derived(b, {t['dest']['l']})
+            ok = 0 in d and not any(op_place(a) is not None and op_place(a)['l'] in d for _, u in b.calls() if u is not t for a in u['args'])
+    ctx.ob('C12.R5', 'header-values-are-the-processors', ok, bodies[0].loc(),
+           'header_values %s' % ('returns biscotti\'s header_values(processor)' if whole else ('processes each cookie itself' if per else 'never reaches the processor')))
+    n = 0
+    for cr in ('pavex', 'pavex_session'):
+        for b in fb.bodies(cr):
+            if b.is_promoted:
+                continue
+            for bb, t in b.calls():
+                if not (callee(t) or '').endswith('Processor::process_outgoing'):
+                    continue
+                n += 1
+                d = forward_derived(b, {t['dest']['l']}, through_calls=False)
+                edits = []
+                for xb, u in b.calls():
+                    c = callee(u) or ''
+                    m = c.split('::')[-1].split('<')[0]
+                    if ('ResponseCookie' in c or 'Cookie' in c) and (m.startswith('set_') or m.startswith('make_') or m.startswith('unset_')):
+                        if any(op_place(a) is not None and op_place(a)['l'] in d for a in u['args'][:1]):
+                            edits.append(m)
+                ctx.ob('C12.R5', 'not-edited-after-processing|%s' % b.nid.replace('pavex::', ''), not edits, b.loc(bb, t),
+                       'cookie methods applied to the processed cookie: %s' % (edits or 'none'))
+    ctx.count('process_outgoing_call_sites_in_pavex', n)
+
+
 def check(ctx):
+    r5_headers_are_the_processors_output(ctx)
     r1_protection(ctx)
     r2_who_builds_cookies(ctx)
     r3_attribute_plumbing(ctx)
